@@ -38,16 +38,15 @@ theorem tree_coherent_invariant (parallel ctx batch : Nat) (multi canShift : Boo
 
 /-- **The executable model, for the tree's reset value.**  A new runner built with the reset value extracted
     from the tree's `ShiftCacheSlot`, any configuration with a context below 2^31, any history of events run by
-    `runEvents` (the function the oracle folds over a `hist` line; defrag hints being relocations): in the state
+    `runEvents` (the function the oracle folds over a `hist` line; a layout observed after a defrag is adopted only
+    if the model's own check `relocOK` accepts it): in the state
     reached every slot's cached contents are exactly its record and live sequences own their slots exclusively. -/
 theorem tree_reachable_coherent_owned (parallel ctx batch : Nat) (multi canShift : Bool) (vocab eosMod : Nat)
     (se cc : Bool) (hctx : (ctx : Int) < maxI32) (evs : List Event) (sv : Server)
-    (hh : OllamaVerif.C07.HintsOK { mkServer Generated.C07.resetEnd parallel ctx batch multi canShift vocab eosMod with
-      stopEarliest := se, crCounted := cc } evs 1)
     (hr : runEvents { mkServer Generated.C07.resetEnd parallel ctx batch multi canShift vocab eosMod with
       stopEarliest := se, crCounted := cc } evs 1 = some sv) :
     OllamaVerif.C07.Coherent sv.cache ∧ OllamaVerif.C07.Owned sv := by
-  rw [tree_reset_end_repaired] at hh hr
-  exact OllamaVerif.C07.reachable_coherent_owned parallel ctx batch multi canShift vocab eosMod se cc hctx evs sv hh hr
+  rw [tree_reset_end_repaired] at hr
+  exact OllamaVerif.C07.reachable_coherent_owned parallel ctx batch multi canShift vocab eosMod se cc hctx evs sv hr
 
 end OllamaVerif.Tie.C07
